@@ -530,6 +530,7 @@ fn scenario(cfg: &RunCfg) -> Outcome {
             }
         };
         // hand the baton to thread t and wait for it
+        sim_core::heartbeat();
         if chans[t].0.send(op).is_err() {
             outcome = Some(Outcome { harness_error: Some("worker thread died".into()), ..Default::default() });
             break;
